@@ -518,6 +518,23 @@ public:
 		, mSize(arraySize)
 	{ }
 
+	~CMsgPackReadBinaryScope()
+	{
+		try
+		{
+			// Skip bytes that was not read (the data which follows the binary array must stay readable)
+			for (; mIndex < mSize; ++mIndex)
+			{
+				mMsgPackReader->ReadBinary();
+			}
+		}
+		catch (...)
+		{
+			// Destructor must not throw (the program would be terminated), the error will be thrown at the end of loading
+			GetContext().SetDeferredError(std::current_exception());
+		}
+	}
+
 	/// <summary>
 	/// Gets the current path in MsgPack.
 	/// </summary>
@@ -581,6 +598,23 @@ public:
 		, mMsgPackReader(msgPackReader)
 		, mSize(arraySize)
 	{ }
+
+	~CMsgPackReadArrayScope()
+	{
+		try
+		{
+			// Skip values that was not read (the data which follows the array must stay readable)
+			for (; mIndex < mSize; ++mIndex)
+			{
+				mMsgPackReader->SkipValue();
+			}
+		}
+		catch (...)
+		{
+			// Destructor must not throw (the program would be terminated), the error will be thrown at the end of loading
+			GetContext().SetDeferredError(std::current_exception());
+		}
+	}
 
 	/// <summary>
 	/// Gets the current path in MsgPack.
